@@ -141,6 +141,11 @@ def run_check(mod, tier, seed):
         else:
             if sig not in new or _size(v) < _size(new[sig]):
                 new[sig] = v
+    dump = os.environ.get("VERIF_DUMP")  # debugging aid: all new signatures + details
+    if dump:
+        with open(dump, "w") as f:
+            for sig, v in sorted(new.items()):
+                f.write("%s\t%s\n" % (sig, str(v.get("detail"))[:500]))
     lines = []
     for eid, (ent, v) in sorted(knownhits.items()):
         lines.append("KNOWN-FINDING: property=%s %s" % (prop, ent["what"]))
